@@ -34,7 +34,10 @@ def _getattr_dynamic(it, args, kwargs, node, anchor):
         it2.st.log.append(LogEntry("plugin_call", [obj, name] + list(cargs), ckw, None, canchor))
         if it2.ctx.branch(z3.Bool("plugin_raises!%d" % len(it2.st.log)), "plugin raises"):
             it2.raise_symbolic(canchor, "Exception", "plugin")
-        return VNone
+        res = it2.ctx.fresh("plugin_result", Val)      # whatever the plugin returns
+        it2.assume_shape(res, ANY)
+        it2.st.log[-1].result = res
+        return res
     return it.st.register(SymCallable("plugin_op", spec))
 
 
